@@ -407,6 +407,7 @@ func runC04(r *core.Run) {
 		})
 
 	interleavedReadersFor(r, []string{"bed"})
+	consumerMutatesRecords(r, []string{"bed"})
 	bigFiles(r, "bed", []int{3, 4, 5, 6, 7, 8, 9, 10, 11, 12})
 
 	r.Bound("marked-offsets", markBounds+"; fields Chrom / Name (N=4) and Strand-less N=12 Name, bytes '#', '\"'"+core.Pick(r, "", " and ',', ' ', 0x00, 0xFF")+"; '#' never first in Chrom")
